@@ -292,6 +292,7 @@ func stubCase(s *hx.Session, bits [][4]bool, ps []int, split bool) error {
 		}
 	}
 
+	committed := e == nil // Commit returned nil: the participants have been told to commit
 	rec.log = nil
 	e = t.Rollback(ctx)
 	r, bad = showRet(e, stubs)
@@ -309,10 +310,24 @@ func stubCase(s *hx.Session, bits [][4]bool, ps []int, split bool) error {
 			}
 		}
 	}
-	for _, q := range append([]int{0}, ps...) {
-		if seen[q] == 0 {
-			s.Fail("C16/rollback-fanout-stopped", fmt.Sprintf("Rollback did not reach P%d", q), rec.String())
-			break
+	if committed {
+		// after a Commit that returned nil, Rollback calls SOP's own Rollback only (fix 6c4c66ea)
+		for _, c := range rec.log {
+			if c.who != 0 {
+				s.Fail("C16/rollback-fanout-after-commit:via=rollback", fmt.Sprintf("after a Commit that returned nil, Rollback() told P%d (already told to commit) to roll back", c.who), hdr+" "+rec.String())
+				break
+			}
+		}
+		if seen[0] == 0 {
+			s.Fail("C16/rollback-fanout-stopped", "Rollback after a successful Commit did not call SOP's own Rollback", rec.String())
+		}
+		s.Hit("rollback_after_successful_commit_reaches_sop_only")
+	} else {
+		for _, q := range append([]int{0}, ps...) {
+			if seen[q] == 0 {
+				s.Fail("C16/rollback-fanout-stopped", fmt.Sprintf("Rollback did not reach P%d", q), rec.String())
+				break
+			}
 		}
 	}
 	if (nfail > 0) != (e != nil) {
@@ -345,7 +360,11 @@ func run(o hx.RunOpts) error {
 	s := hx.NewSession(o, "cases: the real sop.SinglePhaseTransaction over a scripted SOP transaction (id 0) and 0..3 scripted participants (thorough: 0..4), "+
 		"EVERY Boolean script over Begin/Phase1Commit/Phase2Commit/Rollback of each (16^(n+1) scripts for n<=3; for n=4 every script of the calls one method can make), "+
 		"plus directed attachment shapes (same participant attached twice, two AddPhasedTransaction calls) and the real infs transaction behind a logging decorator; "+
-		"each case runs Begin, Commit, Rollback and logs every call with its outcome. distinct = canonical op-line hash; non-trivial = at least one participant attached")
+		"each case runs Begin, Commit, Rollback and logs every call with its outcome. "+
+		"Faithful-lifecycle families (header lc=…, every logged call carries SOP's HasBegun() right after it): a fake SOP transaction with the lifecycle of common.Transaction "+
+		"(3 modes x every script for 0..2 participants, every commit script for 3; sequences begin-commit-rollback, begin-commit-commit, begin-rollback-commit, commit-rollback, begin-commit), and the REAL "+
+		"common.Transaction on real fs backends via harness/txk (add/update/read/conflict/new store/nothing x 5 participant scripts, then one injected fault — failBefore and failAfter — at every backend call "+
+		"of SOP's Commit; thorough: more workloads and a failing participant rollback). distinct = canonical op-line hash; non-trivial = at least one participant attached or the real transaction")
 	// directed corpus first: the shapes a reader would try by hand
 	all1 := [4]bool{true, true, true, true}
 	dir := []struct {
@@ -418,6 +437,14 @@ func run(o hx.RunOpts) error {
 			}
 			s.Hit("random_attachment_list")
 		}
+	}
+	// SOP's side with the lifecycle of common.Transaction: the faithful fake (exhaustive) and the real transaction
+	if err := realDirected(s); err != nil {
+		return err
+	}
+	fakeFamily(s, o)
+	if err := realFamily(s, o); err != nil {
+		return err
 	}
 	if err := realCases(s, o); err != nil {
 		return err
